@@ -46,7 +46,10 @@ def isDigitChar (c : Char) : Bool := isDigitCode c.toNat
 def parseIsotopeMods (mods : List Mod) : Except Err (List (Key × Key)) := do
   let m ← mods.foldlM (fun (acc : List (Key × Key)) (md : Mod) =>
     match md.val with
-    | .str s => pure (setKey acc (keyOfChars (s.filter (fun c => !isDigitChar c))) (keyOfChars s))
+    | .str s =>
+      -- an unknown label (`<13X>`) raises ValueError
+      if (lookup (keyOfChars s) isotopicMasses).isNone then .error .valueError
+      else pure (setKey acc (keyOfChars (s.filter (fun c => !isDigitChar c))) (keyOfChars s))
     | _ => .error .typeError) []
   let m := match lookup kD m with
     | some v => setKey (delKey m kD) kH v
